@@ -54,43 +54,49 @@ func (c *Collection) SetWithMeta(_ context.Context, key string, oldCas CAS, newC
 // writeWithMeta writes a document which will be stored with a cas value of newCas.  It still performs the standard CAS check for optimistic concurrency using oldCas, when specified.
 func (c *Collection) writeWithMeta(key string, body []byte, xattrs []byte, oldCas CAS, newCas CAS, exp uint32, isJSON, isDeletion bool) error {
 	var e *event
-	err := c.bucket.inTransaction(func(txn *sql.Tx) error {
-		var prevCas CAS
-		var revSeqNo uint64
-		row := txn.QueryRow(`SELECT cas, revSeqNo FROM documents WHERE collection=?1 AND key=?2`,
-			c.id, key)
-		err := scan(row, &prevCas, &revSeqNo)
-		if err != nil && err != sql.ErrNoRows {
-			return remapKeyError(err, key)
-		}
-		if oldCas != prevCas {
-			return sgbucket.CasMismatchErr{Expected: oldCas, Actual: prevCas}
-		}
-		revSeqNo++
-		e = &event{
-			key:        key,
-			value:      body,
-			xattrs:     xattrs,
-			cas:        newCas,
-			exp:        exp,
-			isDeletion: isDeletion,
-			isJSON:     isJSON,
-			revSeqNo:   revSeqNo,
-		}
-		if err = c.storeDocument(txn, e); err != nil {
+	err := c.bucket.inPostOrder(func() error {
+		err := c.bucket.inTransaction(func(txn *sql.Tx) error {
+			var prevCas CAS
+			var revSeqNo uint64
+			row := txn.QueryRow(`SELECT cas, revSeqNo FROM documents WHERE collection=?1 AND key=?2`,
+				c.id, key)
+			err := scan(row, &prevCas, &revSeqNo)
+			if err != nil && err != sql.ErrNoRows {
+				return remapKeyError(err, key)
+			}
+			if oldCas != prevCas {
+				return sgbucket.CasMismatchErr{Expected: oldCas, Actual: prevCas}
+			}
+			revSeqNo++
+			e = &event{
+				key:        key,
+				value:      body,
+				xattrs:     xattrs,
+				cas:        newCas,
+				exp:        exp,
+				isDeletion: isDeletion,
+				isJSON:     isJSON,
+				revSeqNo:   revSeqNo,
+			}
+			if err = c.storeDocument(txn, e); err != nil {
+				return err
+			}
+			return c.noteForeignCas(txn, newCas)
+		})
+
+		if err != nil {
 			return err
 		}
-		return c.noteForeignCas(txn, newCas)
+		if e != nil {
+			verifPoint("event.prepost")
+			c.postNewEvent(e)
+		}
+		return nil
 	})
-
-	if err != nil {
-		return err
+	if err == nil && e != nil {
+		c.bucket.expManager.scheduleExpirationAtOrBefore(e.exp)
 	}
-	if e != nil {
-		verifPoint("event.prepost")
-		c.postNewEvent(e)
-	}
-	return nil
+	return err
 }
 
 // noteForeignCas keeps the collection's high-water mark, the clock and the view indexes consistent with a
